@@ -85,6 +85,8 @@ type pendOp struct {
 	ch   uintptr
 	task int
 	send bool
+	sel  bool // registered by a task waiting in Select; idx is the case
+	idx  int
 }
 
 var (
@@ -125,7 +127,25 @@ func removeMyPend(p uintptr, me int, send bool) {
 }
 
 //go:norace
+func removeTaskPends(task int) {
+	k := 0
+	for i := 0; i < nPend; i++ {
+		if pends[i].task != task {
+			pends[k] = pends[i]
+			k++
+		}
+	}
+	nPend = k
+}
+
+//go:norace
 func rendezvous(p uintptr, send bool) {
+	if rdvActive {
+		// the caller is the peer that was woken out of Select for exactly this
+		// channel statement (the initiator is inside its own statement or waits
+		// in AfterChanOp): already matched
+		return
+	}
 	me := cur
 	for {
 		if isClosed(p) {
@@ -135,7 +155,12 @@ func rendezvous(p uintptr, send bool) {
 		}
 		if i := findPend(p, !send); i >= 0 {
 			peer := pends[i].task
-			removePend(i)
+			if pends[i].sel {
+				tasks[peer].selCase = int32(pends[i].idx)
+				removeTaskPends(peer)
+			} else {
+				removePend(i)
+			}
 			tasks[peer].rdv = 1
 			tasks[peer].state = stRunnable
 			rdvActive, rdvPeer, rdvPeerSend = true, peer, !send
@@ -149,7 +174,7 @@ func rendezvous(p uintptr, send bool) {
 			Unsupported = "too many tasks pending on unbuffered channels"
 			panic("zzsim: pending table full")
 		}
-		pends[nPend] = pendOp{p, me, send}
+		pends[nPend] = pendOp{ch: p, task: me, send: send}
 		nPend++
 		Blocked()
 		if tasks[me].rdv == 1 {
@@ -215,37 +240,154 @@ const (
 	ProbePoolDrop = 1
 )
 
-// WaitSelect yields until at least one case of a select statement without a
-// default clause can proceed: a receive on a non-empty or closed channel, or a
-// send on a channel with free buffer space.
-func WaitSelect(chans []interface{}, send []bool) {
+// Select is what an instrumented select statement switches on: the index of
+// the case to execute (-1: the default clause). A case is ready when its
+// channel is closed, when a buffered channel has an element / free space, or -
+// unbuffered - when another task is waiting to do the opposite operation.
+// Among several ready cases the simulator chooses (a recorded decision; the Go
+// runtime would choose at random). With nothing ready and no default clause the
+// task registers on its unbuffered channels, so that a task arriving later at a
+// plain send or receive can pick it as its partner, and yields.
+func Select(chans []interface{}, send []bool, hasDefault bool) int {
 	if !Active() {
-		return
+		return selectOutside(chans, send, hasDefault)
 	}
+	me := Cur()
+	for {
+		var ready [64]int
+		n := 0
+		for i, ch := range chans {
+			v := reflect.ValueOf(ch)
+			if v.Kind() != reflect.Chan || v.IsNil() || n >= len(ready) {
+				continue
+			}
+			p := v.Pointer()
+			switch {
+			case isClosed(p):
+				ready[n] = i
+				n++
+			case v.Cap() == 0:
+				if pendOther(p, !send[i], me) {
+					ready[n] = i
+					n++
+				}
+			case send[i]:
+				if v.Len() < v.Cap() {
+					ready[n] = i
+					n++
+				}
+			default:
+				if v.Len() > 0 {
+					ready[n] = i
+					n++
+				}
+			}
+		}
+		if n > 0 {
+			removeTaskPends(me)
+			k := 0
+			if n > 1 {
+				k = choose(n)
+			}
+			Progress()
+			return ready[k]
+		}
+		if hasDefault {
+			removeTaskPends(me)
+			return -1
+		}
+		removeTaskPends(me)
+		for i, ch := range chans {
+			v := reflect.ValueOf(ch)
+			if v.Kind() != reflect.Chan || v.IsNil() || v.Cap() != 0 {
+				continue
+			}
+			if !addSelPend(v.Pointer(), me, send[i], i) {
+				Unsupported = "too many tasks pending on unbuffered channels"
+				panic("zzsim: pending table full")
+			}
+		}
+		Blocked()
+		if matched(me) {
+			return int(tasks[me].selCase) // woken as the partner of a plain send/receive: run that case
+		}
+	}
+}
+
+//go:norace
+func matched(me int) bool { return tasks[me].rdv == 1 }
+
+//go:norace
+func pendOther(p uintptr, send bool, me int) bool {
+	for i := 0; i < nPend; i++ {
+		if pends[i].ch == p && pends[i].send == send && pends[i].task != me {
+			return true
+		}
+	}
+	return false
+}
+
+//go:norace
+func addSelPend(p uintptr, me int, send bool, idx int) bool {
+	if nPend >= maxPend {
+		return false
+	}
+	pends[nPend] = pendOp{ch: p, task: me, send: send, sel: true, idx: idx}
+	nPend++
+	return true
+}
+
+// choose draws one of n alternatives from the schedule stream: a decision like
+// a task switch, recorded on the tape and replayed from it.
+//
+//go:norace
+func choose(n int) int {
+	var p int64
+	if replay {
+		p = pendP
+		if p < 0 {
+			p = 0
+		}
+		p %= int64(n)
+		loadTape()
+	} else if NTapeOut >= MaxTape {
+		p = 0
+		countdown = Inf
+	} else {
+		p = int64(draw(uint64(n)))
+		TapeOut[NTapeOut] = [2]int64{-1, p}
+		NTapeOut++
+		if NTapeOut >= MaxTape {
+			countdown = Inf
+		} else {
+			genCountdown()
+		}
+	}
+	lastDec = Steps
+	event(-5, cur, int(p), KSelect)
+	return int(p)
+}
+
+// selectOutside: a select executed while no simulation is running (the
+// repository's own tests on the instrumented copy). Buffered and closed
+// channels are polled; an unbuffered one can only become ready by being closed.
+func selectOutside(chans []interface{}, send []bool, hasDefault bool) int {
 	for {
 		for i, ch := range chans {
 			v := reflect.ValueOf(ch)
 			if v.Kind() != reflect.Chan || v.IsNil() {
 				continue
 			}
-			if v.Cap() == 0 && !isClosed(v.Pointer()) {
-				Unsupported = "select on unbuffered channel"
-				panic("zzsim: unbuffered channel not supported")
+			if isClosed(v.Pointer()) {
+				return i
 			}
-			if send[i] {
-				if v.Cap() > 0 && v.Len() < v.Cap() {
-					Progress()
-					return
-				}
-				if isClosed(v.Pointer()) { // would panic, as the real send does
-					Progress()
-					return
-				}
-			} else if v.Len() > 0 || isClosed(v.Pointer()) {
-				Progress()
-				return
+			if v.Cap() > 0 && ((send[i] && v.Len() < v.Cap()) || (!send[i] && v.Len() > 0)) {
+				return i
 			}
 		}
-		Blocked()
+		if hasDefault {
+			return -1
+		}
+		runtime.Gosched()
 	}
 }
